@@ -402,8 +402,10 @@ def r4_seed_propagation(ctx, rep, R='C11.R4'):
               'self.seed is not initialised from options.shuffle_seed (sources: %s)' % sorted(src),
               key='seed:explicit', func=init.qualname, where=ctx.where(init, init.node))
     sp = m.func('runner.spawn_layer_in_subprocess')
+    from .c03 import cmdline_list_name
+    ARGS = cmdline_list_name(sp)
     ext = [c for c in own_calls(sp.node) if isinstance(c.func, ast.Attribute) and
-           c.func.attr in ('extend', 'append') and is_name(c.func.value, 'args') and c.args and
+           c.func.attr in ('extend', 'append') and is_name(c.func.value, ARGS) and c.args and
            '--shuffle-seed' in norm(c.args[0])]
     # args += [...] is the same addition
     class _Add:
@@ -412,7 +414,7 @@ def r4_seed_propagation(ctx, rep, R='C11.R4'):
             self._parent = getattr(st, '_parent', None)
             self.lineno = st.lineno
     aug = [n for n in ast.walk(sp.node) if isinstance(n, ast.AugAssign) and isinstance(n.op, ast.Add) and
-           is_name(n.target, 'args') and '--shuffle-seed' in norm(n.value)]
+           is_name(n.target, ARGS) and '--shuffle-seed' in norm(n.value)]
     anchor = {}
     for n in aug:
         a_ = _Add(n)
